@@ -809,6 +809,9 @@ func (env *Env) call(e *Expr) *Val {
 	case "errIs":
 		a, b := env.eval(e.Args[0]), env.eval(e.Args[1])
 		return scalar(App("errIs", SBool, recast(a.T, SErr), recast(b.T, SErr)), boolT)
+	case "unwrap1":
+		a := env.eval(e.Args[0])
+		return scalar(App("unwrap1", SErr, recast(a.T, SErr)), types.Universe.Lookup("error").Type())
 	case "dyntype":
 		a := env.eval(e.Args[0])
 		return scalar(App("dyntype", SInt, recast(a.T, SIface)), types.Typ[types.Int])
@@ -817,6 +820,13 @@ func (env *Env) call(e *Expr) *Val {
 		a := env.eval(e.Args[0])
 		ty, _ := env.resolveType(e.Args[1].Name)
 		return scalar(And(Neq(a.T, IntLit(0, a.T.Sort)), Eq(App("dyntype", SInt, recast(a.T, SIface)), IntLit(int64(env.ex.eng.typeID(ty)), SInt))), boolT)
+	case "implements":
+		a := env.eval(e.Args[0])
+		ty, _ := env.resolveType(e.Args[1].Name)
+		if ty == nil {
+			env.fail("implements: unknown type %s", e.Args[1].Name)
+		}
+		return scalar(And(Neq(a.T, IntLit(0, a.T.Sort)), App("implements", SBool, App("dyntype", SInt, recast(a.T, SIface)), IntLit(int64(env.ex.eng.typeID(ty)), SInt))), boolT)
 	case "spawned":
 		name := e.Args[0].Name
 		for _, n := range env.cur.notes {
